@@ -712,7 +712,45 @@ fn gen_wq(ctx: &mut Ctx) {
     run_op(ctx, &op);
 }
 
+/// Deep orders (13 ..= the maximum the algorithm accepts: 64 in 2-D, 42 in 3-D) on small point
+/// sets whose points share a cell down to a great depth and separate only deeper: a tight cluster
+/// with offsets k * 2^-e (e in 30..=60) next to a corner of a box of side 8 pinned by two far points.
+fn gen_zc_deep(ctx: &mut Ctx) {
+    let dim = if ctx.rng.chance(3, 5) { 2 } else { 3 };
+    let max_order = if dim == 2 { 64 } else { 42 };
+    let order = match ctx.rng.usize(4) {
+        0 => max_order,
+        1 => 54 .min(max_order),
+        _ => 13 + ctx.rng.usize(max_order - 12),
+    };
+    let n = 3 + ctx.rng.usize(30);
+    let parts = gen_parts(ctx, n);
+    let e = 30 + ctx.rng.usize(31) as i32;
+    let unit = (2.0f64).powi(-e);
+    let mut c: Vec<f64> = Vec::with_capacity(n * dim);
+    for i in 0..n {
+        for d in 0..dim {
+            let v = if i == 0 {
+                0.0
+            } else if i == 1 {
+                8.0
+            } else {
+                // cluster near (1,1[,1]): exactly representable offsets
+                1.0 + unit * ctx.rng.below(64) as f64 * if d == 0 { 1.0 } else { 3.0 }
+            };
+            c.push(v);
+        }
+    }
+    ctx.count("zc:shape:deep-cluster");
+    ctx.count(&format!("zc:order:deep:{}", if order == max_order { "max".to_string() } else if order >= 54 { "54+".to_string() } else { "13-53".to_string() }));
+    let op = format!("zc {} {} {} {} {} {}", dim, 1, order, parts, n, fmt_f(&c));
+    run_op(ctx, &op);
+}
+
 fn gen_zc(ctx: &mut Ctx) {
+    if ctx.rng.chance(1, 6) {
+        return gen_zc_deep(ctx);
+    }
     let dim = if ctx.rng.chance(3, 5) { 2 } else { 3 };
     let pool = *ctx.rng.pick(&POOLS);
     let n = gen_n(ctx);
